@@ -758,3 +758,98 @@ Lemma legacy_refuted :
   (* high-water mark u32::MAX: the replay of the accepted message panics instead of being rejected *)
   Legacy.receive U32MAX 7 [mk_chunk U32MAX 5 7] = VPanic.
 Proof. vm_compute. repeat split; reflexivity. Qed.
+
+(* ================= what the senders emit is accepted when delivered in order ================= *)
+Lemma number_cons last n rid cid : 1 <= n ->
+  number last n rid cid = mk_chunk (last + 1) rid cid :: number (last + 1) (n - 1) rid cid.
+Proof.
+  intros Hn. unfold number. replace (Z.to_nat n) with (S (Z.to_nat (n - 1))) by lia.
+  cbn [seq map]. f_equal; [f_equal; cbn; lia|].
+  rewrite <- seq_shift, map_map. apply map_ext. intros i. f_equal. rewrite Nat2Z.inj_succ. lia.
+Qed.
+
+Lemma number_nil last n rid cid : n <= 0 -> number last n rid cid = [].
+Proof. intros Hn. unfold number. replace (Z.to_nat n) with 0%nat by lia. reflexivity. Qed.
+
+Lemma number_seqs_from k : forall last n rid cid, Z.to_nat n = k ->
+  seqs_from (last + 1) (number last n rid cid) = true.
+Proof.
+  induction k as [|k IH]; intros last n rid cid Hk.
+  - rewrite number_nil by lia. reflexivity.
+  - rewrite number_cons by lia. cbn [seqs_from ch_seq]. rewrite Z.eqb_refl. cbn [andb]. apply IH. lia.
+Qed.
+
+Lemma number_props last n rid cid : 1 <= n ->
+  consecutive (number last n rid cid) = true /\
+  forallb (fun c => ch_rid c =? rid) (number last n rid cid) = true /\
+  forallb (fun c => ch_cid c =? cid) (number last n rid cid) = true.
+Proof.
+  intros Hn. split; [|split].
+  - rewrite number_cons by exact Hn. rewrite consecutive_cons. cbn [ch_seq].
+    apply (number_seqs_from (Z.to_nat (n - 1))). reflexivity.
+  - apply forallb_forall. intros c Hc. pose proof (number_rid last n rid cid) as H. rewrite Forall_forall in H.
+    rewrite (H _ Hc). apply Z.eqb_refl.
+  - apply forallb_forall. intros c Hc. pose proof (number_cid last n rid cid) as H. rewrite Forall_forall in H.
+    rewrite (H _ Hc). apply Z.eqb_refl.
+Qed.
+
+Lemma number_accepted hw chan last n rid cid : 1 <= n -> hw <= last -> (chan = 0 \/ chan = cid) ->
+  spec_accept hw chan (number last n rid cid) = true.
+Proof.
+  intros Hn Hh Hc. destruct (number_props last n rid cid Hn) as (A & B & C).
+  pose proof (number_cons last n rid cid Hn) as E.
+  destruct (number last n rid cid) as [|c0 l] eqn:En; [discriminate|]. injection E as E0 E1. clear En.
+  unfold spec_accept. rewrite A. subst c0. cbn [ch_seq ch_rid] in *. rewrite B.
+  replace (hw <? last + 1) with true by (symmetry; apply Z.ltb_lt; lia). cbn [andb].
+  destruct Hc as [->| ->]; [reflexivity|]. rewrite C. apply orb_true_r.
+Qed.
+
+Definition well_sent (c : case) (m : list chunk) : Prop :=
+  exists last n rid, m = number last n rid (c_schan c) /\ 1 <= n /\ last + n <= U32MAX.
+
+Lemma step_well_sent c s o s' : Forall (well_sent c) (sent s) -> snd (step c s o) = Some s' ->
+  Forall (well_sent c) (sent s').
+Proof.
+  intros H. destruct o as [n|rid big|l]; cbn [step].
+  - destruct (negb (cl_alive s)); [cbn; intros E; inversion E; subst; exact H|].
+    destruct (U32MAX <? cl_id s + 1); [discriminate|].
+    destruct (write_cases (cl_seq s) (c_maxchunks c) (Z.max 1 n) (cl_id s + 1) (c_schan c))
+      as [[-> Hw]|[[-> Hw]|[-> Hw]]]; cbn [snd]; intros E; inversion E; subst; clear E; cbn [upd_client sent]; [exact H|].
+    pose proof (number_nonempty (cl_seq s) (Z.max 1 n) (cl_id s + 1) (c_schan c) ltac:(lia)) as Hne.
+    destruct (number (cl_seq s) (Z.max 1 n) (cl_id s + 1) (c_schan c)) eqn:En; [contradiction|]. rewrite <- En.
+    apply Forall_app. split; [exact H|]. constructor; [|constructor].
+    exists (cl_seq s), (Z.max 1 n), (cl_id s + 1). repeat split; [lia|exact Hw].
+  - destruct (negb (sv_alive s)); [cbn; intros E; inversion E; subst; exact H|].
+    destruct (write_cases (sv_seq s) (c_maxchunks c) 1 rid (c_schan c)) as [[-> Hw]|[[-> Hw]|[-> Hw]]];
+      cbn [snd]; [discriminate|intros E; inversion E; subst; exact H|].
+    destruct (big =? 1); cbn [snd]; intros E; inversion E; subst; clear E; cbn [upd_server sent]; [exact H|].
+    pose proof (number_nonempty (sv_seq s) 1 rid (c_schan c) ltac:(lia)) as Hne.
+    destruct (number (sv_seq s) 1 rid (c_schan c)) eqn:En; [contradiction|]. rewrite <- En.
+    apply Forall_app. split; [exact H|]. constructor; [|constructor].
+    exists (sv_seq s), 1, rid. repeat split; [lia|exact Hw].
+  - destruct (resolve (sent s) l) as [|c0 cs]; [cbn; intros E; inversion E; subst; exact H|].
+    destruct (receive (r_last s) (c_rchan c) (c0 :: cs)); cbn [snd]; intros E; inversion E; subst; exact H.
+Qed.
+
+Lemma exec_well_sent c : forall ops s s', Forall (well_sent c) (sent s) -> exec c s ops = Some s' ->
+  Forall (well_sent c) (sent s').
+Proof.
+  induction ops as [|o ops IH]; intros s s' H E; cbn [exec] in E; [inversion E; subst; exact H|].
+  destruct (snd (step c s o)) as [s1|] eqn:E1; [|discriminate].
+  eapply IH; [|exact E]. eapply step_well_sent; [exact H|exact E1].
+Qed.
+
+(* a message that a sender put on the wire, presented whole and in order to a receiver on the same
+   channel (or one without an id yet) whose high-water mark is below the message, is accepted *)
+Lemma in_order_accepted c ops s m : exec c (init c) ops = Some s -> In m (sent s) ->
+  r_last s < ch_seq (hd ch0 m) -> (c_rchan c = 0 \/ c_rchan c = c_schan c) ->
+  receive (r_last s) (c_rchan c) m = VOk (last_seq m).
+Proof.
+  intros He Hin Hlt Hch.
+  assert (Hw : Forall (well_sent c) (sent s)) by (eapply exec_well_sent; [|exact He]; constructor).
+  rewrite Forall_forall in Hw. destruct (Hw _ Hin) as (last & n & rid & -> & Hn & Hmax).
+  apply receive_ok_iff.
+  - apply number_bounded. exact Hmax.
+  - split; [|reflexivity]. rewrite number_cons in Hlt by exact Hn. cbn in Hlt.
+    apply number_accepted; [exact Hn|lia|exact Hch].
+Qed.
